@@ -27,7 +27,7 @@ DEADLINE_S = {'quick': 240, 'thorough': 2400}
 
 
 def budget(tier):
-	return {'quick': 300, 'thorough': 6000}[tier]
+	return {'quick': 500, 'thorough': 6000}[tier]
 
 
 def digest(path):
